@@ -40,14 +40,22 @@ def md_observation(m):
     return [(s.get_metadata('index'), [(p.name, p.value) for p in s]) for s in m.sections if s.get_metadata('index') <= 3]
 
 
-def first_query(m):
+def first_query(m, querent=None):
+    """the bare-ID query for the first ordinary element of the message; through `querent` when given (a querent and its
+    parser object are meant to be reused), else through a new one"""
     from pybufrkit.dataquery import NodePathParser, DataQuerent
     labels = [str(d) for d in m.template_data.value.decoded_descriptors_all_subsets[0]]
     ident = next((l for l in labels if l[0] == '0' and l[1:3] != '31'), None)
     if ident is None:
         return None
-    o = sut.call(lambda: DataQuerent(NodePathParser()).query(m, ident).all_values(flat=True))
+    q = querent if querent is not None else DataQuerent(NodePathParser())
+    o = sut.call(lambda: q.query(m, ident).all_values(flat=True))
     return ('ok', o.value) if o.ok else ('error', o.exc_type)
+
+
+# expressions the path parser rejects, several of them after it has collected part of a slice
+BAD_QUERIES = ['/001001[1:', '@[1:', '001001[1:x]', '001001[2]x', '@[0', '/[', '@[1:2:3:4]/001001', '001001[', '@/', '/001001[1:2',
+               '@[-1', '001001.[3]']
 
 
 def baseline_of(b, flat):
@@ -79,6 +87,8 @@ def run_history(pool, ops, coder_caches, table_limit):
         decs.append(sut.Decoder() if c is None else sut.Decoder(compiled_template_cache_max=c))
         encs.append(sut.Encoder() if c is None else sut.Encoder(compiled_template_cache_max=c))
     kept = {}          # message index -> a decoded message object kept for later render / query / wire operations
+    from pybufrkit.dataquery import NodePathParser, DataQuerent
+    querent = DataQuerent(NodePathParser())      # one querent (and parser) for the whole history
     for step, op in enumerate(ops):
         kind, j, i = op[0], op[1], op[2]
         p = pool[i]
@@ -116,6 +126,10 @@ def run_history(pool, ops, coder_caches, table_limit):
             got = ('ok', o.value.serialized_bytes) if o.ok else ('error', o.exc_type)
             if got != want:
                 return div('encode', got if not o.ok else 'other bytes (%d)' % len(got[1]), want if want[0] != 'ok' else 'bytes (%d)' % len(want[1]))
+        elif kind == 'badquery':
+            m = kept.get(i) or next(iter(kept.values()), None)
+            if m is not None:
+                sut.call(lambda: querent.query(m, BAD_QUERIES[j % len(BAD_QUERIES)]))       # fails; must leave nothing behind
         elif kind in ('render', 'rewire', 'query', 'subset'):
             m = kept.get(i)
             if m is None or base['decode'][0] != 'ok':
@@ -132,7 +146,7 @@ def run_history(pool, ops, coder_caches, table_limit):
                     if o.value[k] != base['decode'][1][k]:
                         return div('%s of a message object decoded earlier' % k, None, None)
             elif kind == 'query':
-                got = first_query(m)
+                got = first_query(m, querent)
                 if got != base['query']:
                     return div('query on a message object decoded earlier', got, base['query'])
             else:
@@ -239,7 +253,7 @@ def gen_hist(ch, opts, real_limit=False):
                         c.features.add('same_sequence_with_and_without_local_table')
                     cases.extend(pair if ch.bool() else pair[::-1])
                     continue
-            if ch.bool(1, 7) and len(cases) + 2 <= n:
+            if ch.bool(1, 5) and len(cases) + 2 <= n:
                 # twins: an element that two master table versions define with the same width but another scale or
                 # reference value, in the same small template on both versions
                 vs = opts.versions or versions
@@ -252,6 +266,9 @@ def gen_hist(ch, opts, real_limit=False):
                     b2 = gpool.pool_for(v2).tables.B
                     other = ch.choice(gpool.pool_for(v1).num_all)
                     ids = [e] if (ch.bool() or other not in b2) else [other, e, e]
+                    if ch.bool(1, 2):
+                        # and statistics about it: the marker value takes scale and reference of the element it refers to
+                        ids = [e, e, 224000, 101002, 31031, 8023, 101000, 31001, 224255]
                     try:
                         pair = [gmsg.gen_case(ch, opts, fixed=(v, None, ids)) for v in (v1, v2)]
                     except Reject:
@@ -282,8 +299,21 @@ def gen_hist(ch, opts, real_limit=False):
         if i >= len(cases):
             kind = ch.choice(['fail', 'fail', 'info'])
         else:
-            kind = ch.weighted([(6, 'decode'), (2, 'encode'), (1, 'info'), (1, 'render'), (1, 'rewire'), (1, 'query'), (1, 'subset')])
+            kind = ch.weighted([(6, 'decode'), (2, 'encode'), (1, 'info'), (1, 'render'), (1, 'rewire'), (2, 'query'), (1, 'subset'),
+                                (1, 'badquery')])
+        if kind == 'badquery':
+            ops.append((kind, ch.int(0, len(BAD_QUERIES) - 1), i))
+            if ch.bool(2, 3):
+                ops.append(('query', j, i))        # the next query through the same querent
+            continue
         ops.append((kind, j, i))
+    # twins are decoded one after the other by one coder at least once (whatever else the history does)
+    twin_idx = [k for k, c in enumerate(cases) if 'same_element_other_scale_or_reference' in c.features
+                or 'same_sequence_with_and_without_local_table' in c.features]
+    if twin_idx and not real_limit:
+        j = ch.int(0, n_coders - 1)
+        pos = ch.int(0, len(ops))
+        ops[pos:pos] = [('decode', j, k) for k in (twin_idx if ch.bool() else twin_idx[::-1])]
     if real_limit:
         # first touch every group once, then revisit the early ones
         ops = [('decode', 0, i) for i in range(len(cases))] + [('decode', 0, i) for i in range(0, 12)] + ops[:40]
@@ -311,6 +341,8 @@ def classify(hc):
             if g in seen_groups:
                 seen_groups.remove(g)
             seen_groups.append(g)
+        if kind == 'badquery':
+            classes.add('failed_query')
         if kind == 'fail':
             any_fail = True
             classes.add('failed_operation')
